@@ -526,7 +526,10 @@ func lexInsideAction(l *lexer) stateFn {
 			l.emit(itemUnderscore)
 			return lexInsideAction
 		}
-		fallthrough // no space? must be the start of an identifier
+		// no space? must be the start of an identifier; peek() has overwritten l.width
+		// with the width of the rune after the '_', so step back over the '_' by hand
+		l.pos -= Pos(len("_"))
+		return lexIdentifier
 	case isAlphaNumeric(r):
 		l.backup()
 		return lexIdentifier
